@@ -9,8 +9,8 @@ Trap     == Tier = "trap"
 Sel(t, q, th) == CASE Tier = "trap" -> t [] Tier = "quick" -> q [] OTHER -> th
 
 TwoTests == <<T("gte", 2, "gte"), UT("eq", 3, "u1")>>
-TestSets == Sel({TwoTests}, {TwoTests}, {<<>>, <<T("gte", 2, "gte")>>, TwoTests})
-PTSets   == Sel({<<"ok", "err">>}, {<<"ok", "err">>}, {<<>>, <<"ok">>, <<"ok", "err", "ok">>})
+TestSets == Sel({TwoTests}, {TwoTests}, {<<T("gte", 2, "gte")>>, TwoTests})
+PTSets   == Sel({<<"ok", "err">>}, {<<"ok", "err">>}, {<<>>, <<"ok", "err">>})
 Defaults == Sel({None}, {None, 1}, {None, 1, 3})
 
 PrimVariants ==
@@ -24,12 +24,13 @@ SliceTests == <<T("min", 2, "min"), UT("const", 0, "sl")>>
 
 SliceVariants ==
   {Slice(e, r, d, ts, ps) :
-     e \in Sel({Prim("int", FALSE, None, 5, <<T("gte", 2, "gte")>>, <<>>)}, ElemPrims, SmallPrims),
+     e \in Sel({Prim("int", FALSE, None, 5, <<T("gte", 2, "gte")>>, <<>>)}, ElemPrims, ElemPrims),
      r \in Sel({TRUE}, BOOLEAN, BOOLEAN), d \in Sel({None}, {None, 2}, {None, 2}),
      ts \in Sel({<<>>, SliceTests}, {SliceTests}, {<<>>, SliceTests}), ps \in {<<"ok">>}}
 
 PtrVariants == {Ptr(e, nn) : e \in Sel({Prim("int", TRUE, None, None, <<T("gte", 2, "gte")>>, <<>>)},
-                                        {Prim("int", TRUE, None, c, <<T("gte", 2, "gte")>>, <<>>) : c \in {None, 5}}, SmallPrims),
+                                        {Prim("int", TRUE, None, c, <<T("gte", 2, "gte")>>, <<>>) : c \in {None, 5}},
+                                        {Prim("int", r, None, c, <<T("gte", 2, "gte")>>, <<>>) : r \in BOOLEAN, c \in {None, 5}}),
                              nn \in Sel({TRUE}, BOOLEAN, BOOLEAN)}
 
 CustomVariants == Sel({}, {Custom(UT("gte", 2, "cust"))}, {Custom(UT("gte", 2, "cust"))})
@@ -85,7 +86,7 @@ InputsFor(node, mode) == IF mode = "parse" THEN ParseInputs(node) ELSE ValueInpu
 
 \* quick: the root's own tests pass, so that successful executions exist (C01, C03); failing struct tests are on Inner
 StructTests == Sel({<<UT("const", 0, "st1"), UT("const", 0, "st2")>>}, {<<UT("const", 1, "st1"), UT("const", 1, "st2")>>},
-                   {<<>>, <<UT("const", 0, "st1"), UT("const", 0, "st2")>>, <<UT("const", 1, "st1")>>})
+                   {<<UT("const", 0, "st1"), UT("const", 0, "st2")>>, <<UT("const", 1, "st1"), UT("const", 1, "st2")>>})
 
 MkCase(mode, f1, f2, i1, i2, sts) ==
   [id |-> "mc", mode |-> mode, fe |-> "map", pre |-> 0,
